@@ -35,6 +35,20 @@ PROPS = {
                      "in the shipped and in a 4-slot routing-table configuration; every step is judged against the reference model (routed message at "
                      "the owner only, payload equality, one final answer with the original id, unique routed ids). Non-trivial = at least one request "
                      "was routed and concluded by reply, timeout or owner disconnect; distinct = scenario hash."),
+    "C04": scen("c04", ["default", "default", "default", "tiny"],
+                quick=dict(cases=700, size=60), thorough=dict(cases=20000, size=90, budget_s=3000),
+                rule="rapidcheck-generated sequences of add/remove/change/set/call/get and single-defect malformed requests by several peers over an "
+                     "adversarial path pool (empty, 215-byte, non-ASCII, quoted/escaped, paths sharing a home bucket of the 2^13 index) and arbitrary JSON "
+                     "values; an observer connection holds a fetch-all and issues get after every operation, so the daemon's own element set is compared "
+                     "with the reference map after every step. Non-trivial = at least one mutation refused for ownership/kind/existence and at least one "
+                     "re-add of a path after its removal or its owner's disconnect; distinct = scenario hash."),
+    "C16": scen("c16", ["default"],
+                quick=dict(cases=1200, size=60), thorough=dict(cases=40000, size=100, budget_s=3000),
+                rule="rapidcheck-generated families of 4-8 related paths (prefixes/suffixes/infixes/case variants of each other, non-ASCII, empty) and rule "
+                     "objects (any multiset and order of the six matchers, operands derived from the paths by 9 transformations, caseInsensitive absent/true/false/"
+                     "repeated/first/last, unknown names, mistyped operands, 12 and 14 matchers); every rule is used for get and for fetch (states and methods), "
+                     "followed by a change and by re-use of the same fetch id; selections and events are compared with an independent matcher. "
+                     "Non-trivial = at least one well-formed rule selects a proper non-empty subset of the paths; distinct = scenario hash."),
 }
 
 def plan_workers(spec, tier, nproc):
